@@ -6,6 +6,7 @@ import (
 	"math/big"
 	"strings"
 
+	sdkmath "cosmossdk.io/math"
 	sdk "github.com/cosmos/cosmos-sdk/types"
 	banktypes "github.com/cosmos/cosmos-sdk/x/bank/types"
 	distrtypes "github.com/cosmos/cosmos-sdk/x/distribution/types"
@@ -339,7 +340,12 @@ var forgedClasses = []string{
 	"malleated-s-same-v", "wrong-v-flipped", "wrong-v-out-of-range", "truncated", "zero-signature",
 	// the caller signs, with its OWN key, a message that names somebody else as delegator and submits it itself
 	"caller-signs-for-other-delegator",
+	// not a forgery: the caller's own, correctly signed message names a denomination other than the bond
+	// denomination. The native message with that coin is what decides (x/staking refuses it).
+	otherDenomClass, otherDenomClass,
 }
+
+const otherDenomClass = "own-message-in-other-denomination"
 
 var validClasses = []string{"valid", "valid", "valid", "valid-v-0-1", "valid-malleated-s-flipped-v"}
 
@@ -386,7 +392,7 @@ func (w *world) planSigned() *plan {
 		to, caller, kind = relay.Addr, relay.Ctx, relay.Kind
 	}
 	withdraw := r.Chance(1, 4)
-	if withdraw && (class == "perturbed-amount" || class == "perturbed-action") {
+	if withdraw && (class == "perturbed-amount" || class == "perturbed-action" || class == otherDenomClass) {
 		withdraw = false
 	}
 	other := w.relayer
@@ -500,6 +506,10 @@ func (w *world) planSigned() *plan {
 			}
 			op = base
 			op.Method = "delegateByActionMessage"
+			if class == otherDenomClass {
+				m.Denom = vh.Pick(r, []string{vh.SecondDenom, "stake", "uatom", "ibc/27394FB092D2ECCD56123C74F36E4C1F926001CEADA9CA97EA622B25F41E5EB2", "WEI", "weii"})
+				op.Denom = m.Denom
+			}
 			signed := m.clone()
 			switch class {
 			case "perturbed-validator":
@@ -560,7 +570,7 @@ func (w *world) planSigned() *plan {
 		}
 		// the monitor's own judgement, from the property text: delegator == immediate caller == recovered signer
 		accept := recOK && recovered == submittedDelegator && submittedDelegator == caller
-		forged := !strings.HasPrefix(class, "valid")
+		forged := !strings.HasPrefix(class, "valid") && class != otherDenomClass
 		if forged == accept {
 			panic(fmt.Sprintf("c11 generator: class %s but independent verdict accept=%v (recovered %s delegator %s caller %s)", class, accept, recovered.Hex(), submittedDelegator.Hex(), caller.Hex()))
 		}
@@ -833,7 +843,14 @@ func (w *world) planNative() *plan {
 	dels := w.delegationsOf(s.Addr)
 	var msg sdk.Msg
 	kind := ""
-	switch k := r.Intn(12); {
+	switch k := r.Intn(13); {
+	case k == 12:
+		amt := sdk.NewCoins(sdk.NewCoin(vh.SecondDenom, sdkmath.NewInt(int64(r.Range(1000, 50_000_000)))))
+		if r.Chance(1, 3) {
+			amt = amt.Add(coin(w.randEther(0.01, 2)))
+		}
+		msg = &distrtypes.MsgDepositValidatorRewardsPool{Depositor: del, ValidatorAddress: w.randVal().String(), Amount: amt}
+		kind = "MsgDepositValidatorRewardsPool"
 	case k < 4 || len(dels) == 0:
 		msg = &stakingtypes.MsgDelegate{DelegatorAddress: del, ValidatorAddress: w.randVal().String(), Amount: coin(w.randEther(0.05, 30))}
 		kind = "MsgDelegate"
